@@ -4,7 +4,7 @@
    All theorems hold for every configuration, every retry-policy oracle and every history of responses, executor
    task runs, speculative timer firings and pool-state changes (any length, any order). *)
 From Coq Require Import ZArith List Bool.
-From Verif Require Import PyBase FutbProto FutB FutB_lemmas FutB_steps FutB_origin C17_proofs.
+From Verif Require Import PyBase FutbProto FutB FutB_lemmas FutB_steps FutB_origin C17_proofs C17_cover.
 Import ListNotations.
 Local Open Scope Z_scope.
 
@@ -65,6 +65,16 @@ Proof.
   - exact (mentioned_in_plan c lb target pl cl idem hasp maxa ks ops s evs x H Hx).
 Qed.
 Print Assumptions C17_errors_only_plan_hosts.
+
+(* "listing every attempted host": when a request that has no outcome yet fails with NoHostAvailable, every host of the
+   plan is a key of the reported errors, or still has something open (an unanswered attempt of a speculative execution, a
+   queued executor task).  In a history without concurrent attempts nothing is open: the keys are exactly the plan. *)
+Theorem C17_exhaustion_lists_every_host : forall c lb target pl cl idem hasp maxa ks ops s evs o s' ev errs,
+  exec c (init lb target pl cl idem hasp maxa ks) ops = (s, evs) -> fin_res s = None -> fin_exc s = None ->
+  step c s o = (s', ev) -> fin_exc s' = Some (XNoHost errs) ->
+  forall h, In h (make_plan lb target) -> In h (keys errs) \/ In h (open_hosts s').
+Proof. exact exhaustion_covers. Qed.
+Print Assumptions C17_exhaustion_lists_every_host.
 
 (* explicit host target: every message goes to that host *)
 Theorem C17_target_only : forall c lb pl cl idem hasp maxa ks ops s evs h,
